@@ -255,4 +255,30 @@ structure AdminGateExt where
   checkAuth : Nat → authInfo × Option Err
   isAdmin : Str → Bool
 
+/-! ### cmd/keymasterd `BootstrapOtpAuthHandler` (from the profile load to the cookie upgrade) -/
+
+/-- the one field of `userProfile` this handler touches: the stored bootstrap OTP record (0 = the cleared record
+`bootstrapOTPData{}`) -/
+structure bootProfile where
+  BootstrapOTP : Nat
+deriving DecidableEq, Repr
+
+inductive BootEffect
+  | fail (status : Nat)
+  | saveProfile (user : Str) (p : bootProfile)
+  | upgrade (user : Str) (level : Nat)
+  | reached
+deriving DecidableEq, Repr
+
+structure BootExt where
+  loadProfile : Str → bootProfile × Bool × Bool × Option Err
+  /-- `userBootstrapOtpHash(profile, fromCache)`: the hash of the unexpired stored OTP (opaque) -/
+  storedHash : bootProfile → Bool → Nat
+  /-- `len(hash) < 1`: no valid stored OTP -/
+  noHash : Nat → Bool
+  /-- constant-time comparison of the hash of the presented value with the stored hash -/
+  hashMatches : Nat → Bool
+  saveResult : Str → bootProfile → Option Err
+  upgradeResult : Str → Nat → Str × Option Err
+
 end KM.GoTypes
